@@ -21,8 +21,10 @@ OBLIGATIONS = [
 
 # ------------------------------------------------------------------ part lists of the real passes
 def balanced_args():
-    src = (REPO / 'cvise/passes/balanced.py').read_text()
-    return re.findall(r"self\.arg == '([^']+)'", src)
+    # the arguments the pass accepts: asked from the pass itself (every string constant of its module is a candidate), so
+    # that the list does not depend on how the argument dispatch is written
+    import gen_model
+    return gen_model.probe_accepted_args(BalancedPass, gen_model.module_string_constants(REPO / 'cvise/passes/balanced.py'))
 
 
 def peep_c_parts():
